@@ -135,6 +135,36 @@ pub proof fn axiom_ctx_topic_nul_free()
     admit();
 }
 
+pub proof fn lemma_apply3(p: Parts, a: Op, b: Op, c: Op)
+    ensures apply_ops(p, seq![a, b, c]) == apply_op(apply_op(apply_op(p, a), b), c)
+{
+    let s3 = seq![a, b, c];
+    let s2 = seq![a, b];
+    let s1 = seq![a];
+    assert(s3.drop_last() =~= s2);
+    assert(s2.drop_last() =~= s1);
+    assert(s1.drop_last() =~= Seq::<Op>::empty());
+    assert(s3.last() == c && s2.last() == b && s1.last() == a);
+    reveal_with_fuel(apply_ops, 5);
+}
+pub proof fn lemma_apply_remove_ops(p: Parts, id: Scru128Id, f: &Frame)
+    ensures apply_ops(p, remove_ops(id, f)) == (Parts { stream: p.stream.remove(id_bytes(id)), idx_topic: p.idx_topic.remove(fkey(f)), idx_ctx: p.idx_ctx.remove(fckey(f)) })
+{
+    lemma_apply3(p, Op::Remove(Part::Stream, id_bytes(id)), Op::Remove(Part::IdxTopic, fkey(f)), Op::Remove(Part::IdxCtx, fckey(f)));
+}
+pub proof fn lemma_apply_insert_ops(p: Parts, f: &Frame)
+    ensures apply_ops(p, insert_ops(f)) == (Parts { stream: p.stream.insert(id_bytes(f.id), frame_enc(*f)),
+        idx_topic: p.idx_topic.insert(fkey(f), Seq::<u8>::empty()), idx_ctx: p.idx_ctx.insert(fckey(f), Seq::<u8>::empty()) })
+{
+    lemma_apply3(p, Op::Insert(Part::Stream, id_bytes(f.id), frame_enc(*f)), Op::Insert(Part::IdxTopic, fkey(f), Seq::<u8>::empty()),
+        Op::Insert(Part::IdxCtx, fckey(f), Seq::<u8>::empty()));
+}
+// every stored frame's topic fits the key functions' precondition (true of every real allocation)
+pub open spec fn stream_wf(st: &St) -> bool {
+    forall|k: Seq<u8>| #[trigger] st.parts.stream.contains_key(k) ==> topic_bytes(&frame_dec(st.parts.stream[k])).len() <= MAX_TOPIC()
+        && nul_free(topic_bytes(&frame_dec(st.parts.stream[k])))
+}
+pub open spec fn no_storage_error(old_st: &St, new_st: &St) -> bool { new_st.errs == old_st.errs }
 pub open spec fn last16(k: Seq<u8>) -> Seq<u8> { k.subrange(k.len() - 16, k.len() as int) }
 // the frame an index entry points to, if it is still stored
 pub open spec fn live_frame(st: &St, kv: Kv) -> Option<Frame> {
@@ -175,7 +205,7 @@ pub open spec fn head_post(kvs: Seq<Kv>, st: &St, r: Option<Frame>) -> bool {
 impl Store {
 //@@ item file=src/store/mod.rs fn=get impl=Store ret=r
 //@@ after_all: pub fn get(&self, ==> Tracked(st): Tracked<&St>,
-//@@ closure_spec: .map(|value| ==> -> (fr: Frame) ensures fr == frame_dec(slice_bytes(&value))
+//@@ closure_spec: .map( ==> -> (fr: Frame) ensures fr == frame_dec(slice_bytes(&$1))
 //@@ spec
     requires store_wf(self),
     ensures
@@ -210,7 +240,7 @@ impl Store {
 
 //@@ item file=src/store/mod.rs fn=head impl=Store ret=r
 //@@ after_all: pub fn head(&self, ==> Tracked(st): Tracked<&St>,
-//@@ closure_spec: .find_map(|kv| ==> -> (o: Option<Frame>) requires kv is Ok && kv_key(kv).len() >= 16 ensures o == live_frame(st, kv)
+//@@ closure_spec: .find_map( ==> -> (o: Option<Frame>) requires $1 is Ok && kv_key($1).len() >= 16 ensures o == live_frame(st, $1)
 //@@ spec
     requires store_wf(self), topic.spec_bytes().len() <= MAX_TOPIC(),
         // representation invariant (established by insert_frame / remove): index keys end in a 16-byte id
@@ -242,6 +272,14 @@ impl Store {
         // an xs.context frame's id leaves the registry; nothing else touches it (C07)
         old(st).parts.stream.contains_key(id_bytes(*id)) && r is Ok ==>
             final(st).contexts == (if is_ctx_topic(&stored_frame(old(st), *id)) { old(st).contexts.remove(id_u128(stored_frame(old(st), *id).id)) } else { old(st).contexts }), //# store.remove.unregisters
+        // whatever the outcome, the stored data is either untouched or exactly the three tombstones were applied
+        final(st).parts == old(st).parts || (old(st).parts.stream.contains_key(id_bytes(*id))
+            && final(st).parts == apply_ops(old(st).parts, remove_ops(*id, &stored_frame(old(st), *id)))), //# store.remove.nothing_else_touched
+        old(st).log.len() <= final(st).log.len(), old(st).errs <= final(st).errs,
+        // errors are propagated, never swallowed: Err only for a stored NUL topic (excluded by the representation
+        // invariant) or when the storage layer reported an error
+        r is Err ==> !no_storage_error(old(st), final(st))
+            || (old(st).parts.stream.contains_key(id_bytes(*id)) && !nul_free(topic_bytes(&stored_frame(old(st), *id)))), //# store.remove.errors_propagated
 //@@ before_stmt: .commit(
     proof { assert(batch_ops(&batch) =~= remove_ops(*id, &frame)); } //# store.remove.three_tombstones
 //@@ prologue
@@ -280,6 +318,68 @@ impl Store {
     proof { axiom_ctx_topic_nul_free(); axiom_fmt_req_scru(); }
 //@@ end
 }
+
+// ---- GC worker, CheckHeadTTL arm (body of the match arm in spawn_gc_worker) ----
+pub open spec fn gc_scan(kvs: Seq<Kv>, st: &St, context_id: Scru128Id, topic: String) -> bool {
+    is_scan(kvs, st.parts.idx_topic, |k: Seq<u8>| starts_with(k, topic_prefix(id_u128(context_id), vstd::utf8::encode_utf8(topic@))))
+}
+pub open spec fn victims_post(kvs_rev: Seq<Kv>, keep: u32, ids: Seq<Scru128Id>) -> bool {
+    &&& ids.len() == (if keep as int <= kvs_rev.len() { kvs_rev.len() - keep as int } else { 0 })
+    &&& forall|j: int| 0 <= j < ids.len() ==> id_bytes(#[trigger] ids[j]) == last16(kv_key(kvs_rev[j + keep as int]))
+}
+pub open spec fn head_gc_post(kvs_rev: Seq<Kv>, keep: u32, old_st: &St, new_st: &St) -> bool {
+    // nothing is added or rewritten
+    &&& forall|k: Seq<u8>| #[trigger] new_st.parts.stream.contains_key(k) ==> old_st.parts.stream.contains_key(k) && new_st.parts.stream[k] == old_st.parts.stream[k]
+    // a frame disappears only if its index entry lies in the scanned prefix beyond the newest `keep` entries (C08)
+    &&& forall|k: Seq<u8>| old_st.parts.stream.contains_key(k) && !new_st.parts.stream.contains_key(k)
+            ==> exists|j: int| keep as int <= j < kvs_rev.len() && k == last16(kv_key(#[trigger] kvs_rev[j]))
+    // and, unless the storage layer reported an error, every such entry's frame is gone (C09)
+    &&& no_storage_error(old_st, new_st) ==>
+            forall|j: int| keep as int <= j < kvs_rev.len() ==> !new_st.parts.stream.contains_key(last16(kv_key(#[trigger] kvs_rev[j])))
+}
+//@@ slice file=src/store/mod.rs fn=spawn_gc_worker name=gc_head_arm
+//@@ from: keep, } => {
+//@@ through_close
+//@@ inner
+//@@ closure_spec: .map( ==> -> (id: Scru128Id) requires $1 is Ok && kv_key($1).len() >= 16 ensures id_bytes(id) == last16(kv_key($1))
+//@@ before_stmt?: for frame_id in frames_to_remove
+    let ghost kvs: Seq<Kv> = choose|kvs: Seq<Kv>| is_scan(kvs, old(st).parts.idx_topic, |k: Seq<u8>| starts_with(k, topic_prefix(id_u128(context_id), vstd::utf8::encode_utf8(topic@))))
+        && victims_post(kvs.reverse(), keep, frames_to_remove@);
+    let ghost kvs_rev = kvs.reverse();
+//@@ after?: for frame_id in
+    it:
+//@@ before?: { let _ = store.remove(
+    invariant store_wf(store), old(st).log.len() <= st.log.len(), old(st).errs <= st.errs, stream_wf(st),
+        gc_scan(kvs, old(st), context_id, topic), kvs_rev == kvs.reverse(), victims_post(kvs_rev, keep, frames_to_remove@), //# store.gc_head.exact_prefix_keep_newest
+        forall|k: Seq<u8>| #[trigger] st.parts.stream.contains_key(k) ==> old(st).parts.stream.contains_key(k) && st.parts.stream[k] == old(st).parts.stream[k],
+        forall|k: Seq<u8>| old(st).parts.stream.contains_key(k) && !st.parts.stream.contains_key(k)
+            ==> exists|j: int| keep as int <= j < keep as int + it.index@ && k == last16(kv_key(#[trigger] kvs_rev[j])), //# store.gc_head.exact_prefix_keep_newest
+        no_storage_error(old(st), st) ==>
+            forall|j: int| keep as int <= j < keep as int + it.index@ ==> !st.parts.stream.contains_key(last16(kv_key(#[trigger] kvs_rev[j]))), //# store.gc_head.exact_prefix_keep_newest
+//@@ before_stmt?: let _ = store.remove(
+    let ghost pre = *st;
+//@@ after?: let _ = store.remove(&frame_id);
+    proof {
+        assert(frames_to_remove@[it.index@ as int] == frame_id);
+        assert(id_bytes(frame_id) == last16(kv_key(kvs_rev[keep as int + it.index@])));
+        if pre.parts.stream.contains_key(id_bytes(frame_id)) {
+            lemma_apply_remove_ops(pre.parts, frame_id, &stored_frame(&pre, frame_id));
+        }
+    }
+//@@ header
+fn gc_head_arm(store: &Store, Tracked(st): Tracked<&mut St>, context_id: Scru128Id, topic: String, keep: u32)
+    requires store_wf(store), stream_wf(old(st)), vstd::utf8::encode_utf8(topic@).len() <= MAX_TOPIC(),
+        forall|k: Seq<u8>| old(st).parts.idx_topic.contains_key(k) ==> k.len() >= 16,
+    ensures
+        // scans exactly the prefix ctx||topic||0x00 of the topic index, newest first, spares the newest `keep`
+        // entries, removes the frames of all the others and nothing else (C08, C09)
+        exists|kvs: Seq<Kv>| gc_scan(kvs, old(st), context_id, topic) && head_gc_post(kvs.reverse(), keep, old(st), final(st)), //# store.gc_head.exact_prefix_keep_newest
+{
+    broadcast use axiom_key_bytes_refvec;
+//@@ epilogue
+    proof { assert(gc_scan(kvs, old(st), context_id, topic) && head_gc_post(kvs.reverse(), keep, old(st), st)); }
+}
+//@@ end
 
 } // verus!
 fn main() {}
